@@ -138,6 +138,10 @@ func genConfig(r *rng, allowNot bool) []*namespace.Namespace {
 					types = append(types, ast.RelationType{Namespace: r.pick(names), Relation: r.pick(related)})
 				}
 			}
+			for i := len(types) - 1; i > 0; i-- { // the order of a type union carries no meaning: any order must behave alike
+				j := r.intn(i + 1)
+				types[i], types[j] = types[j], types[i]
+			}
 			ns.Relations = append(ns.Relations, ast.Relation{Name: rel, Types: types})
 		}
 		for _, p := range permits {
@@ -495,7 +499,34 @@ func (ee *engineEnv) header(out *sink) {
 	if ee.strict {
 		st = 1
 	}
-	out.emit(fmt.Sprintf("econf %d %d %d %s", st, ee.width, ee.gdepth, cfgTok(ee.nss)), "-")
+	out.emit(fmt.Sprintf("econf %d %d %d %s", st, ee.width, ee.gdepth, cfgTok(ee.loaded())), "-")
+}
+
+// loaded returns the configuration AS THE SERVER HOLDS IT (for OPL: what its parser made of the rendered text, whose
+// tree shape - and with it the depth accounting of nested rewrites - may differ from the generator's tree), in the
+// generator's namespace order
+func (ee *engineEnv) loaded() []*namespace.Namespace {
+	nm, err := ee.e.reg.Config(context.Background()).NamespaceManager()
+	if err != nil {
+		return ee.nss
+	}
+	all, err := nm.Namespaces(context.Background())
+	if err != nil || len(all) != len(ee.nss) {
+		return ee.nss
+	}
+	by := map[string]*namespace.Namespace{}
+	for _, n := range all {
+		by[n.Name] = n
+	}
+	var out []*namespace.Namespace
+	for _, g := range ee.nss {
+		n, ok := by[g.Name]
+		if !ok {
+			return ee.nss
+		}
+		out = append(out, n)
+	}
+	return out
 }
 func (ee *engineEnv) insert(t *testing.T, ts []*ketoapi.RelationTuple) {
 	if len(ts) == 0 {
@@ -558,6 +589,7 @@ func suiteEngine(t *testing.T, cfg cfgT) {
 	if cfg.suite == "ENGINE" {
 		cases += engineCorpus(t, out)
 	}
+	envNo := 0
 	for cases < cfg.n {
 		hr := r.fork()
 		allowNot := hr.chance(1, 2)
@@ -617,6 +649,22 @@ func suiteEngine(t *testing.T, cfg cfgT) {
 			out.stat("result." + strings.Fields(obs)[0])
 			cases++
 		}
+		if cfg.extra["probe_env"] == fmt.Sprint(envNo) { // debugging aid: every goal of this environment at small depths
+			for _, ns := range nss[1:] {
+				for _, o := range egObjects {
+					for _, rel := range ns.Relations {
+						for _, u := range egUsers {
+							for _, rd := range []int{1, 2, 3, 4} {
+								u := u
+								q := &ketoapi.RelationTuple{Namespace: ns.Name, Object: o, Relation: rel.Name, SubjectID: &u}
+								out.emit(fmt.Sprintf("echeck %s %d", fmtTuple(q), rd), ee.check(q, rd))
+							}
+						}
+					}
+				}
+			}
+		}
+		envNo++
 		if shadow != nil {
 			shadow.close()
 		}
